@@ -87,6 +87,15 @@ def run_history(case, ctx, sdir):
         warnings.simplefilter("ignore")
         doc = gen.build_doc(spec)
         c08.apply_muts(doc, case["muts"])
+        if case.get("linker"):
+            # a Section whose link is stored but not resolved (as after loading a file): validating must not resolve it
+            tops = [s_ for s_ in doc.sections if "/" not in s_.name and s_.name not in (".", "..")]
+            if tops:
+                try:
+                    doc.append(odml.Section("verif_linker", "t", link="/" + tops[case["linker"] % len(tops)].name))
+                    rec.count("documents", "with-unresolved-link")
+                except Exception as exc:
+                    rec.count("documents", "linker-refused:" + type(exc).__name__)
         if not check_registry(rec, "document-construction", case):
             return
         from checks.c01_xml import no_ids
@@ -194,7 +203,9 @@ def run_history(case, ctx, sdir):
                             pass
             except Exception as exc:
                 rec.outcome("step-raised:%s:%s" % (name, type(exc).__name__))
-            if name in ("validate", "custom", "save"):
+            # (an RDF export resolves links by design - RDF has no notion of them - so it is not a pure observer of a
+            # document with an unresolved link; the validation that precedes every save is judged through the other formats)
+            if name in ("validate", "custom", "save") and not (name == "save" and step[1] == "RDF" and case.get("linker")):
                 rec.monitor("pure")
                 changed = hist.snapshot_diff(snap, hist.snapshot(all_objs(doc)), objs)
                 if changed:
@@ -278,7 +289,8 @@ def run(ctx):
             warnings.simplefilter("ignore")
             probe = gen.build_doc(spec)
         muts = c08.gen_muts(rng, probe, rng.choice([0, 0, 1, 2]))
-        case = {"spec": enc(spec), "muts": muts, "steps": gen_steps(rng, rng.randrange(6, 20))}
+        case = {"spec": enc(spec), "muts": muts, "steps": gen_steps(rng, rng.randrange(6, 20)),
+                "linker": rng.choice([0, 0, 1, 2])}
         run_history(case, ctx, sdir)
         if i < 2:
             rec.sample({"steps": case["steps"][:8], "muts": muts})
